@@ -948,6 +948,34 @@ def _skippable(st):
     return False
 
 
+def _inline_super_aliases(fn):
+    """``p = super(C, self)`` (or ``super()``) bound once: the proxy depends on nothing that changes, every use of ``p`` is
+    the call written out again"""
+    stores = {}
+    for n in ast.walk(fn):
+        if isinstance(n, ast.Name) and isinstance(n.ctx, (ast.Store, ast.Del)):
+            stores[n.id] = stores.get(n.id, 0) + 1
+    changed = False
+    for blk in _blocks_of(fn):
+        for i, st in enumerate(list(blk)):
+            if isinstance(st, ast.Assign) and len(st.targets) == 1 and isinstance(st.targets[0], ast.Name) \
+                    and isinstance(st.value, ast.Call) and isinstance(st.value.func, ast.Name) and st.value.func.id == "super" \
+                    and not st.value.keywords and all(isinstance(a, ast.Name) for a in st.value.args) \
+                    and stores.get(st.targets[0].id) == 1 and not any(stores.get(a.id) for a in st.value.args) \
+                    and "super" not in stores and st.targets[0].id not in _captured_names(fn):
+                v = st.targets[0].id
+                # every use is an attribute access on it, later in this block (nested blocks included)
+                uses = [n for n in ast.walk(fn) if isinstance(n, ast.Name) and n.id == v and isinstance(n.ctx, ast.Load)]
+                later = {id(n) for s_ in blk[blk.index(st) + 1:] for n in ast.walk(s_)}
+                if uses and all(id(u) in later for u in uses) and (st.value.args or not any(
+                        isinstance(n, FuncTypes + (ast.Lambda,)) and n is not fn for n in ast.walk(fn))):
+                    for s_ in blk[blk.index(st) + 1:]:
+                        _Subst({v: st.value}).visit(s_)
+                    blk.remove(st)
+                    changed = True
+    return changed
+
+
 def _inline_read_aliases(fn, strict=False):
     """``v = self.attr[0]`` (a plain read chain, assigned once at the top level of the body): every use of ``v`` that is
     reached from the assignment without any statement that could write an attribute or an item is replaced by the read
@@ -1224,7 +1252,8 @@ def simplify_views(tree, ref_tree):
             # (only parameters the confirmed function re-binds itself: the point is to speak its language)
             rebound = {n_.id for n_ in ast.walk(r) if isinstance(n_, ast.Name) and isinstance(n_.ctx, ast.Store)} & set(_scope_params(r))
             ref_names = {n_.id for n_ in ast.walk(r) if isinstance(n_, ast.Name) and isinstance(n_.ctx, ast.Store)}
-            c3 = _inline_read_aliases(node) or _reuse_param_names(node, rebound, ref_names) or _product_loops_in_view(node)
+            c3 = _inline_read_aliases(node) or _reuse_param_names(node, rebound, ref_names) or _product_loops_in_view(node) \
+                or _inline_super_aliases(node)
             # a list built by an append loop where the confirmed function builds its lists by comprehensions only
             c4 = (not _append_loops(r)) and any(isinstance(n, ast.ListComp) for n in ast.walk(r)) and _loops_to_comprehensions(node)
             if not (c1 or c2 or c3 or c4):
@@ -3644,6 +3673,7 @@ def canonical_ast(fn, helpers, methods=None, hier=None, segment=False):
     ast.fix_missing_locations(f)
     f.body = docstring_free(f.body)
     _private_list_resets(f)
+    _inline_super_aliases(f)
     _tuple_assign_prepass(f)
     ll_ = _list_locals(f)
     if ll_:
